@@ -112,7 +112,7 @@ def gen_case(rng, i, tier):
 
 def _arity(p, name):
     for c in p["clauses"]:
-        if c[0] == "fact" and c[2][0] == name:
+        if c[0] in ("fact", "rule") and c[2][0] == name:
             return len(c[2][1])
     return 0
 
